@@ -538,7 +538,12 @@ class StubsStringGenerator:
 
             result_type = result.type.to_dict()
 
-            if result_type["kind"] == "NamedType" and result_type["qname"] == "builtins.None":
+            # A function that only returns None has no results
+            if (
+                len(function_results) == 1
+                and result_type["kind"] == "NamedType"
+                and result_type["qname"] == "builtins.None"
+            ):
                 return ""
 
             ret_type = self._create_type_string(result_type)
